@@ -1,4 +1,5 @@
-"""Fills the @Cxx@ placeholders of DESIGN.md section 11 from evidence/*.json (events, wall seconds of the last run)."""
+"""Fills the cost cells of DESIGN.md section 11 from evidence/*.json (events, states, wall seconds of the last run of each check);
+re-runnable: the cells are delimited by <!--Cxx--> ... <!--/Cxx--> markers."""
 import json, os, re
 HERE = os.path.dirname(os.path.dirname(os.path.abspath(__file__)))
 p = os.path.join(HERE, 'DESIGN.md')
@@ -13,5 +14,7 @@ for i in range(1, 19):
     ev = cov.get('evaluations', 0)
     txt = '%s events, %d k states, %d s' % (('%.2f M' % (ev / 1e6)) if ev >= 1e6 else ('%d k' % (ev // 1000)) if ev >= 1000 else str(ev),
                                           cov.get('states', 0) // 1000, round(d.get('wall_s', 0)))
-    s = re.sub(r'@%s@|(?<=\| )[0-9.]+ ?[Mk]? events, \d+ k states, \d+ s(?= \|\n\| (?:C%02d|\n))' % (cid, i + 1), txt, s) if ('@%s@' % cid) in s else s
+    cell = '<!--%s-->%s<!--/%s-->' % (cid, txt, cid)
+    s = s.replace('@%s@' % cid, cell)
+    s = re.sub(r'<!--%s-->.*?<!--/%s-->' % (cid, cid), cell, s)
 open(p, 'w').write(s)
